@@ -2,14 +2,14 @@
 # tools/seed_eval.sh <ID> [dir with patch.diff + demo.py, default /verif/seeded/<ID>]   - confirm a seeded change delivered by a sub-agent and run the check against it.
 #  1. patch applies to a clean copy of /repo/emd         2. demo.py: exit 0 on /repo, non-zero on the changed copy
 #  3. pinned suite still passes on the changed copy       4. ./check <ID> against the changed copy (VERIF_REPO)
-ID=$1; OUT=${2:-/verif/seeded/$ID}
+NAME=$1; ID=${NAME:0:3}; OUT=${2:-/verif/seeded/$NAME}
 D=$(mktemp -d /dev/shm/emd-seed-XXXXXX)
 cp -r /repo/emd "$D/emd"; cp /repo/setup.py /repo/setup.cfg "$D/" 2>/dev/null; rm -rf "$D/emd/__pycache__" "$D/emd/tests/__pycache__"
 (cd "$D" && patch -p1 -s < "$OUT/patch.diff") || { echo "RESULT $ID patch-failed"; rm -rf "$D"; exit 3; }
 echo "--- files changed:"; (cd "$D" && diff -rq /repo/emd emd | grep -v pycache)
-EMD_REPO=/repo timeout 600 /venv/bin/python -W ignore "$OUT/demo.py" >/dev/shm/seed-$ID-orig.log 2>&1; r0=$?
-EMD_REPO="$D" timeout 600 /venv/bin/python -W ignore "$OUT/demo.py" >/dev/shm/seed-$ID-mut.log 2>&1; r1=$?
-echo "--- demo: original exit $r0, changed exit $r1"; tail -3 /dev/shm/seed-$ID-mut.log
+EMD_REPO=/repo timeout 600 /venv/bin/python -W ignore "$OUT/demo.py" >/dev/shm/seed-$NAME-orig.log 2>&1; r0=$?
+EMD_REPO="$D" timeout 600 /venv/bin/python -W ignore "$OUT/demo.py" >/dev/shm/seed-$NAME-mut.log 2>&1; r1=$?
+echo "--- demo: original exit $r0, changed exit $r1"; tail -3 /dev/shm/seed-$NAME-mut.log
 XML=$(mktemp /dev/shm/seed-XXXXXX.xml)
 (cd "$D" && PYTHONPATH="$D" /venv/bin/python -m pytest -q -p no:cacheprovider --timeout=900 --junitxml="$XML" emd/tests >/dev/null 2>&1)
 /venv/bin/python - "$XML" <<'PY'
@@ -22,8 +22,8 @@ missing=[b for b in base if b not in ok]
 print('--- pinned suite on changed copy: %d passed, stable tests missing: %r' % (len(ok), missing))
 PY
 rm -f "$XML"
-cd /verif && VERIF_REPO="$D" ./check "$ID" --no-evidence > /dev/shm/seed-$ID-check.log 2>&1; rc=$?
-grep -E "violation|VIOLATION|HARNESS" /dev/shm/seed-$ID-check.log | cut -c1-300 | head -8
-tail -1 /dev/shm/seed-$ID-check.log
-echo "RESULT $ID demo_orig=$r0 demo_changed=$r1 check_rc=$rc"
+cd /verif && VERIF_REPO="$D" ./check "$ID" --no-evidence > /dev/shm/seed-$NAME-check.log 2>&1; rc=$?
+grep -E "violation|VIOLATION|HARNESS" /dev/shm/seed-$NAME-check.log | cut -c1-300 | head -8
+tail -1 /dev/shm/seed-$NAME-check.log
+echo "RESULT $NAME demo_orig=$r0 demo_changed=$r1 check_rc=$rc"
 rm -rf "$D"
